@@ -118,6 +118,8 @@ class Counters(EngineBase):
         wrap_rate = rng.choice([0.02, 0.1, 0.3])
         gone_rate = rng.choice([0.0, 0.05, 0.15])
         allgone_rate = rng.choice([0.0, 0.0, 0.08])
+        reset_rate = rng.choice([0.0, 0.0, 0.05, 0.15])
+        reorder_rate = rng.choice([0.0, 0.0, 0.2, 0.5])
         for i in range(nsteps):
             for table, present, names in ((net, present_n, netnames),
                                           (disk, present_d, disknames)):
@@ -137,6 +139,11 @@ class Counters(EngineBase):
                                 row[j] -= top
                         elif r < 0.62:
                             row[j] = top - rng.randrange(1, 1500)
+                    if rng.random() < reset_rate:
+                        # driver reset / interface re-created under the same
+                        # name between two reads: every counter back to 0
+                        for j in range(len(row)):
+                            row[j] = 0
                     if rng.random() < gone_rate:
                         if name in present:
                             present.discard(name)
@@ -150,10 +157,15 @@ class Counters(EngineBase):
                         present.clear()
                     else:
                         present.update(names)
+            if rng.random() < reorder_rate:
+                # the kernel lists the same devices in another order (a NIC
+                # re-registered, a disk re-probed)
+                rng.shuffle(netnames)
+                rng.shuffle(disknames)
             ops.append({"op": "ev", "ev": {
                 "ev": "net_set",
-                "table": {n: list(net[n]) for n in netnames
-                          if n in present_n}}})
+                "table": [[n, list(net[n])] for n in netnames
+                          if n in present_n]}})
             ops.append({"op": "ev", "ev": {
                 "ev": "disk_set",
                 "table": [{"major": 8, "minor": k_, "name": d,
